@@ -23,6 +23,12 @@ func init() {
 			"(R03.3) every attribute value written after `=` is the result of the one quoting routine html.EscapeAttrVal. The trait tables themselves are decided under C17. Not covered: whitespace significance per document, optional-tag inference in every parent context, `</script` inside script text.",
 		Run: runC03,
 	})
+	mutant(&Mutant{Name: "c03-p-end-tag-decision-as-switch", Property: "C03", File: "html/html.go",
+		Old: "\t\t\t\t\t\t\tif next.TokenType == html.ErrorToken || next.TokenType == html.EndTagToken && next.Traits != 0 && next.Traits&keepPTag == 0 || next.TokenType == html.StartTagToken && next.Traits&omitPTag != 0 {\n\t\t\t\t\t\t\t\tomitEndTag = true // omit p end tag\n\t\t\t\t\t\t\t}\n", New: "\t\t\t\t\t\t\tswitch next.TokenType {\n\t\t\t\t\t\t\tcase html.ErrorToken:\n\t\t\t\t\t\t\t\tomitEndTag = true\n\t\t\t\t\t\t\tcase html.EndTagToken:\n\t\t\t\t\t\t\t\tomitEndTag = next.Traits&keepPTag == 0\n\t\t\t\t\t\t\tcase html.StartTagToken:\n\t\t\t\t\t\t\t\tomitEndTag = next.Traits&omitPTag != 0\n\t\t\t\t\t\t\t}\n",
+		Rule: "R03.2", Construct: "assigned condition"})
+	mutant(&Mutant{Name: "c03-every-type-attribute-lowercased", Property: "C03", File: "html/html.go",
+		Old: "attr.Hash == Type && (t.Hash == A || t.Hash == Link || t.Hash == Embed || t.Hash == Object || t.Hash == Source || t.Hash == Script) {", New: "attr.Hash == Type {",
+		Rule: "R03.7", Construct: "Mediatype applied"})
 	mutant(&Mutant{Name: "c03-checkbox-empty-value-dropped", Property: "C03", File: "html/html.go",
 		Old: "isOnOff := parse.EqualFold(t.AttrVal, radioBytes) || parse.EqualFold(t.AttrVal, checkboxBytes)", New: "isOnOff := parse.EqualFold(t.AttrVal, radioBytes)",
 		Rule: "R03.6", Construct: "input value removal"})
@@ -55,6 +61,7 @@ func init() {
 func runC03(c *Ctx) {
 	defer c.tokenBuffer("R03.5", "html")
 	defer c.r036()
+	defer c.r037()
 	pk := c.pkg("R03", "html")
 	if pk == nil {
 		return
@@ -291,7 +298,7 @@ func evalIntExpr(info *types.Info, e ast.Expr, env map[string]int64) (int64, boo
 
 func (c *Ctx) r032(pk *packages.Package, fd *ast.FuncDecl) {
 	const rule = "R03.2"
-	c.R.Rule(rule, "for every assignment `omitEndTag = true` in html.(*Minifier).Minify: if its guard reads next.Traits, the guard — evaluated over next.TokenType ∈ {Error, Text, StartTag, EndTag, Comment} × next.Traits ∈ {0, each single trait bit} — is false for (EndTag, Traits = 0) and (StartTag, Traits = 0): an element absent from tagMap (custom element, slot) never licenses omission; if its guard is a disjunction of t.Hash == K, every K is an element whose end tag the HTML standard allows to omit; the attribute-less tag removal set ⊆ elements whose start and end tags are both optional")
+	c.R.Rule(rule, "for every assignment `omitEndTag = true` in html.(*Minifier).Minify (or `omitEndTag = <condition over next>` — then the condition together with the enclosing if / `switch next.TokenType` guards is what is evaluated): if its guard reads next.Traits, the guard — evaluated over next.TokenType ∈ {Error, Text, StartTag, EndTag, Comment} × next.Traits ∈ {0, each single trait bit} — is false for (EndTag, Traits = 0) and (StartTag, Traits = 0): an element absent from tagMap (custom element, slot) never licenses omission; if its guard is a disjunction of t.Hash == K, every K is an element whose end tag the HTML standard allows to omit; the attribute-less tag removal set ⊆ elements whose start and end tags are both optional")
 	info := pk.TypesInfo
 	h := c.loadHash(rule, "html")
 	if h == nil {
@@ -374,6 +381,104 @@ func (c *Ctx) r032(pk *packages.Package, fd *ast.FuncDecl) {
 			}
 		}
 		c.R.Check(len(bad) == 0, rule, construct, c.pos(cond), fmt.Sprintf("%d elements, all with an optional end tag", len(names)), "the end tag of "+strings.Join(bad, ", ")+" is omitted, but the HTML standard does not make it optional: following content ends up inside the element")
+		return true
+	})
+	// the same decision written as an assignment of a condition, possibly inside `switch next.TokenType`
+	ast.Inspect(fd.Body, func(x ast.Node) bool {
+		as, ok := x.(*ast.AssignStmt)
+		if !ok || len(as.Lhs) != 1 || len(as.Rhs) != 1 || str(as.Lhs[0]) != "omitEndTag" {
+			return true
+		}
+		rhs := str(as.Rhs[0])
+		if rhs == "true" || rhs == "false" || !strings.Contains(rhs, "next.") {
+			return true
+		}
+		n++
+		construct := fmt.Sprintf("html.Minifier.Minify/omitEndTag guard#%d (assigned condition)", n)
+		// enclosing guards up to the look-ahead loop
+		type guard struct {
+			cond ast.Expr
+			want bool
+			toks []ast.Expr // case list of switch next.TokenType
+		}
+		var guards []guard
+		var child ast.Node = as
+		for p := c.P.Parent(as); p != nil; p = c.P.Parent(p) {
+			switch e := p.(type) {
+			case *ast.IfStmt:
+				if e.Body == child {
+					guards = append(guards, guard{cond: e.Cond, want: true})
+				} else if e.Else == child {
+					guards = append(guards, guard{cond: e.Cond, want: false})
+				}
+			case *ast.CaseClause:
+				if sw, ok := c.P.Parent(c.P.Parent(e)).(*ast.SwitchStmt); ok && sw.Tag != nil && str(sw.Tag) == "next.TokenType" {
+					guards = append(guards, guard{toks: e.List})
+				}
+			case *ast.ForStmt, *ast.FuncDecl:
+				p = nil
+			}
+			if p == nil {
+				break
+			}
+			child = p
+		}
+		var bad []string
+		undecided := false
+		for tn, tv := range tokens {
+			traits := []int64{0}
+			for _, t := range traitNames {
+				traits = append(traits, c.traitBit(rule, pk, t))
+			}
+			for _, tr := range traits {
+				env := map[string]int64{"next.TokenType": tv, "next.Traits": tr}
+				holds := true
+				for _, gd := range guards {
+					if gd.toks != nil {
+						in := false
+						for _, te := range gd.toks {
+							if v, ok := intConst(info, te); ok && v == tv {
+								in = true
+							}
+						}
+						if !in {
+							holds = false
+						}
+						continue
+					}
+					if !strings.Contains(str(gd.cond), "next.") {
+						continue
+					}
+					v, ok := evalIntExpr(info, gd.cond, env)
+					if !ok {
+						undecided = true
+						continue
+					}
+					if (v != 0) != gd.want {
+						holds = false
+					}
+				}
+				if !holds {
+					continue
+				}
+				v, ok := evalIntExpr(info, as.Rhs[0], env)
+				if !ok {
+					undecided = true
+					continue
+				}
+				if tr == 0 && (tn == "EndTag" || tn == "StartTag") && v != 0 {
+					bad = append(bad, fmt.Sprintf("true for (%s, Traits=0)", tn))
+				}
+			}
+		}
+		switch {
+		case undecided:
+			c.R.Unres(rule, construct, c.pos(as), "the assigned condition is not a function of next.TokenType and next.Traits alone: "+rhs)
+		case len(bad) > 0:
+			c.R.Bad(rule, construct, c.pos(as), "the end tag is omitted next to an element the minifier knows nothing about ("+strings.Join(bad, ", ")+"): e.g. `<my-card><p>x</p></my-card><p>y</p>` re-parses with the second paragraph inside my-card, because the unknown end tag is ignored while p is open")
+		default:
+			c.R.OK(rule, construct, c.pos(as), "false for unknown elements")
+		}
 		return true
 	})
 	c.R.Floor(rule, "omitEndTag guards", n, 3)
